@@ -187,7 +187,10 @@ def gen_entry(r, kind):
         return {'little': little}, v.to_bytes(3, 'little' if little else 'big'), v, 'ok'
     if kind in ('cstr', 'cstr_fn', 'form_string'):
         n = _pick_strlen(r)
-        s = bytes(r.randrange(1, 256) for _ in range(n))
+        if r.random() < 0.2:
+            s = bytes([r.choice([0xff, 0x01, 0x20, 0x80, 0x7f])]) * n      # long runs of one byte value
+        else:
+            s = bytes(r.randrange(1, 256) for _ in range(n))
         return {}, s + b'\0', s, 'ok'
     if kind == 'block':
         form = r.choice(['DW_FORM_block1', 'DW_FORM_block2', 'DW_FORM_block4', 'DW_FORM_block', 'DW_FORM_exprloc'])
@@ -526,6 +529,11 @@ def _plan(tier):
     chunks += [('i24', lo, min(lo + chunk, i24_total)) for lo in range(0, i24_total, chunk)]
     _PLAN[tier] = (n_random, chunks)
     return _PLAN[tier]
+
+
+def spec_for(prop, tier, seed, index):
+    n_random, chunks = _plan(tier)
+    return gen_spec(seed, index, tier) if index < n_random else dict(engine=ENGINE, enum=list(chunks[index - n_random]))
 
 
 def describe(prop):
